@@ -182,6 +182,30 @@ def choose_cutoff(ex, chem, rng, maxjumps, shell_choices=(0, 0, 1, 1, 2, 3)):
     return float(cut)
 
 
+def lattice_cutoff(ex, chem, rng, which=0):
+    """cutoff just above the (which+1)-th shortest lattice-vector length: every site then has the jumps (i,i,R), which
+    share their displacement across all sites of the species"""
+    rr = [range(-2, 3)] * ex.dim + [range(0, 1)] * (3 - ex.dim)
+    ql = sorted(set(ex.qf(tuple(ex.D * x for x in R)) for R in itertools.product(*rr) if any(R)))
+    if which >= len(ql): return None
+    q = ql[which]
+    sh = [x for x in shells(ex, chem) if x > q]
+    lo = math.sqrt(q / ex.scale)
+    hi = math.sqrt(sh[0] / ex.scale) if sh else lo + 1.0
+    if hi - lo < 1e-5: return None
+    return float(lo + min(rng.choice([1e-4, 1e-3, 1e-2]), 0.4 * (hi - lo)))
+
+
+def shared_displacements(ex, chem, model):
+    """number of model jumps whose displacement vector equals that of a jump between a DIFFERENT pair of sites"""
+    by = {}
+    P = ex.pos[chem]
+    for (i, j, R) in model:
+        dx = tuple(ex.D * R[k] + P[j][k] - P[i][k] for k in range(3))
+        by.setdefault(dx, set()).add((i, j))
+    return sum(1 for (i, j, R) in model if len(by[tuple(ex.D * R[k] + P[j][k] - P[i][k] for k in range(3))]) > 1)
+
+
 def min_other_distance(ex, chem):
     """smallest distance from a site of chem to an atom of another species"""
     best = None
@@ -247,7 +271,8 @@ def one_case(ck, rng, label, crys, chem, ex, cutoff, mode, maxjumps, skipped, cd
     ops = coq_ops(ex, chem)
     res = dict(label=label, cutoff=cutoff, arg=arg, chem=chem, model=model, impl=impl, latt=latt, nmax=nmax, code_nmax=code_nmax,
                timpl=timpl, crys=repr(crys), njumps=len(model), nclasses=len(jn), nG=len(ex.ops), obst=obst,
-               box_small=any(code_nmax[k] < nmax[k] for k in range(3)), _ex=ex, _crys=crys, c2=c2, nblocked=nfree - len(model), nfar=nfar)
+               box_small=any(code_nmax[k] < nmax[k] for k in range(3)), _ex=ex, _crys=crys, c2=c2, nblocked=nfree - len(model), nfar=nfar,
+               nshared=shared_displacements(ex, chem, model), nwyck=len(crys.sitelist(chem)))
     if impl is None:
         res["error"] = "displacement does not correspond to a lattice vector between the named sites"; return res
     if ops is None:
@@ -324,12 +349,13 @@ def report(ck, res, code, nmodel):
     """turn one evaluated case into counters / violations"""
     rep = {k: res.get(k) for k in ("label", "crys", "chem", "cutoff", "arg", "nmax", "code_nmax", "njumps", "nclasses", "nG")}
     rep["closestdistance"] = res.get("arg")
-    kind = "%s|cd=%s|%s" % (res["label"].split("-")[0] if res["label"].startswith(("rand", "farend")) else "named",
+    kind = "%s|cd=%s|%s" % (res["label"].split("-")[0] if res["label"].startswith(("rand", "farend", "multiW")) else "named",
                             "default" if res["arg"] is None else ("list" if isinstance(res["arg"], list) else "scalar"),
-                            "boxsmall" if res.get("box_small") else "boxok") + ("|obstructed" if res.get("nblocked") else "") + ("|far-end-obstructor" if res.get("nfar") else "")
+                            "boxsmall" if res.get("box_small") else "boxok") + ("|obstructed" if res.get("nblocked") else "") + ("|far-end-obstructor" if res.get("nfar") else "") + ("|shared-dx-%dW" % res.get("nwyck", 1) if res.get("nshared") else "")
     ck.case(key=(res["label"], res["crys"], res["chem"], round(res["cutoff"], 9), res["arg"]), nontrivial=res.get("njumps", 0) >= 2, kind=kind,
             sample={"crystal": res["crys"], "chem": res["chem"], "cutoff": res["cutoff"], "closestdistance": res["arg"],
-                    "jumps": res.get("njumps"), "jumps_removed_by_obstruction": res.get("nblocked"), "of_which_only_by_atoms_beyond_cutoff_from_start": res.get("nfar"), "classes": res.get("nclasses"), "|G|": res.get("nG"), "certified_box": res.get("nmax"),
+                    "jumps": res.get("njumps"), "jumps_removed_by_obstruction": res.get("nblocked"), "of_which_only_by_atoms_beyond_cutoff_from_start": res.get("nfar"),
+                    "jumps_sharing_dx_with_another_site_pair": res.get("nshared"), "wyckoff_sets_of_species": res.get("nwyck"), "classes": res.get("nclasses"), "|G|": res.get("nG"), "certified_box": res.get("nmax"),
                     "code_box": res.get("code_nmax"), "coq_code": code})
     if "error" in res:
         ck.violation("jumpnetwork failed or returned malformed data: " + res["error"], rep, key="c21-malformed"); return
@@ -395,7 +421,9 @@ def run(ck):
                "neighbour shells (just above a shell or mid-gap, shell 1-4) x closest distance (default / scalar / per-species, dyadic, "
                "0.3-1.4 x the smallest site-atom distance); plus skewed low-symmetry cells with long cutoffs; plus low-symmetry "
                "multi-species cells built so that a jump is obstructed ONLY by an atom beside its far end (farther than the cutoff "
-               "from the start site) with the cutoff just above the jump length; inputs within 1e-6 of a threshold are "
+               "from the start site) with the cutoff just above the jump length; plus species occupying >= 2 Wyckoff sets (named multi-set "
+               "crystals with permuted atom order, omega phase, random P1 cells) with the cutoff just above a lattice-vector length so "
+               "that inequivalent jumps share one displacement vector; inputs within 1e-6 of a threshold are "
                "skipped and counted; distinct = distinct (crystal, species, cutoff, closest distance); non-trivial = at least 2 jumps")
     ck.trusted += ["harness/c21.py, sitegen.py: exact read-back of the crystal, conversion dx -> (i,j,R) (verified rounding), Coq literal printing",
                    "crys.G taken from the implementation (validated per operation by op_okb; completeness is property C18)"]
@@ -431,6 +459,39 @@ def run(ck):
         if cand is None: continue
         res = one_case(ck, rng, "rand-" + r[0], crys, 0, ex, cand, "default", 2500, skipped)
         if res is not None:
+            cases.append(res); found += 1
+    # species occupying >= 2 Wyckoff sets, cutoff beyond the shortest lattice vector: inequivalent jumps (i,i,R), (j,j,R)
+    # share one displacement vector -- each must still appear, in its own class
+    from . import gen
+    nmw = ck.n(6, 30)
+    srcs = []
+    fl = ["sq2w", "polar2w", "pmm2-3w", "re3", "wurtzite-int", "fcc-oct-tet", "hcp-oct-tet"]
+    rng.shuffle(fl)
+    for nm in fl:
+        crys, chem = gen.named(nm)
+        srcs.append((nm + "~perm", gen.shuffled(crys, rng), chem))
+    omega = gen.crystal.Crystal(np.array([[1., 0, 0], [-.5, math.sqrt(3) / 2, 0], [0, 0, 0.6]]).T,
+                                [np.array([0., 0, 0]), np.array([1 / 3, 2 / 3, .5]), np.array([2 / 3, 1 / 3, .5])])
+    srcs.insert(1, ("omega-1a2d", omega, 0))
+    found = tries = 0
+    si = 0
+    while found < nmw and tries < 12 * nmw:
+        tries += 1
+        if si < len(srcs) and (tries % 2 == 1):
+            label, crys, chem = srcs[si]; si += 1
+        else:
+            r = sg.random_rational_crystal(rng, rng.choice([2, 2, 3]), maxatoms=3, nchem=rng.choice([1, 1, 2]), skew=rng.random() < 0.2)
+            if r is None: continue
+            label, crys = "multiW-" + r[0], r[1]
+            chem = max(range(crys.Nchem), key=lambda c: len(crys.sitelist(c)))
+        if len(crys.sitelist(chem)) < 2: continue
+        ex = sg.Exact(crys)
+        if not ex.ok: continue
+        cutoff = lattice_cutoff(ex, chem, rng, which=rng.choice([0, 0, 1]))
+        if cutoff is None: continue
+        mode = "default" if crys.Nchem == 1 else rng.choice(["default", "scalar", "list"])
+        res = one_case(ck, rng, label if label.startswith("multiW") else "multiW-" + label, crys, chem, ex, cutoff, mode, ck.n(200, 400), skipped)
+        if res is not None and res.get("nshared"):
             cases.append(res); found += 1
     # low-symmetry / polar cells with an obstructing atom beside the far end of a jump, cutoff just above the jump length
     nfarwant = ck.n(8, 40)
@@ -481,6 +542,7 @@ def run(ck):
     ck.extra["cases_checked_by_coq"] = len(codes)
     ck.extra["traces_validated_against_impl"] = len(codes)
     ck.extra["classes_all_single_orbits"] = all(c.get("single_orbit", True) for c in cases)
+    ck.extra["cases_multi_wyckoff_shared_displacement"] = sum(1 for c in cases if c.get("nshared") and c.get("nwyck", 1) >= 2)
     ck.extra["cases_with_far_end_obstructor"] = sum(1 for c in cases if c.get("nfar"))
     ck.extra["code_box_smaller_than_certified"] = sum(1 for c in cases if c.get("box_small"))
     ck.extra["impl_seconds"] = round(sum(c.get("timpl", 0) for c in cases), 1)
